@@ -119,6 +119,14 @@ def run(ctx, prog, S, M, explicit):
                 ctx.error(where, "replace(%s, %s): cannot show that the new element has the tag of the one it replaces" % (
                     ast.unparse(call.args[0]), ast.unparse(call.args[1])))
             continue
+        ext_at = None
+        if meth == "extend" and len(call.args) == 1:
+            # E.extend(<sequence of elements>): each is appended, in order - the placement question is that of append()
+            lt = T.expr(call.args[0], fc)
+            inner = frozenset(x for a_ in lt if a_[0] in ("list", "tuple") and len(a_) > 1 and a_[1] for x in a_[1])
+            if inner:
+                ext_at = inner
+                meth = "append"
         if meth in ("extend", "replace"):
             ctx.error(where, "raw tree mutation .%s() on an element is not modelled" % meth)
             continue
@@ -126,7 +134,7 @@ def run(ctx, prog, S, M, explicit):
         if len(call.args) <= argi:
             continue
         arg = call.args[argi]
-        at = T.expr(arg, fc)
+        at = ext_at if ext_at is not None else T.expr(arg, fc)
         acls, aunk = elem_classes(T, M, at)
         h = hints.get(skey, {})
         child_tags = h.get("child") or tags_of_classes(prog, M, acls)
